@@ -16,15 +16,17 @@ TProtos == {"HTTP1", "HTTP2"}
 TChannels == {"tunnel", "ping", "speedtest", "reverse_proxy"}
 N == Len(Rec)
 
-VARIABLE l
-tvars == << vars, l >>
+VARIABLES l,
+          enabled    \* the protocols the listener under test enables (listen_protocols), announced by Config
+tvars == << vars, l, enabled >>
 
 Ev(e) == l <= N /\ Rec[l].ev = e
-Adv == l' = l + 1
+Adv == l' = l + 1 /\ UNCHANGED enabled
+ProtoSet(names) == { names[i] : i \in 1..Len(names) }
 R == Rec[l]
 
 \* the harness announces the configuration of the endpoint under test
-TConfig == Ev("Config") /\ Adv /\ stage \in {"idle", "closed"}
+TConfig == Ev("Config") /\ l' = l + 1 /\ enabled' = ProtoSet(R.protos) /\ stage \in {"idle", "closed"}
            /\ rulesOn' = R.rules /\ stage' = "idle" /\ Reset /\ peer' = ""
            /\ gSessions' = [p \in Protos |-> 0] /\ gTcp' = 0
 
@@ -33,28 +35,29 @@ TPeekDone == Ev("PeekDone") /\ Adv /\ Peek(R.found)
 TRulesEval == Ev("RulesEval") /\ Adv /\ RulesEval(R.ip, R.random # "null", R.verdict)
 
 \* without a rules engine the evaluation step leaves no event
-TNoRulesSilent == Ev("DemuxResult") /\ stage = "peeked" /\ NoRules /\ UNCHANGED l
+TNoRulesSilent == Ev("DemuxResult") /\ stage = "peeked" /\ NoRules /\ UNCHANGED << l, enabled >>
 ProtoName(p) == IF p = "h1" THEN "HTTP1" ELSE IF p = "h2" THEN "HTTP2" ELSE p
-TDemux == Ev("DemuxResult") /\ Adv /\ Demux(R.res.channel, ProtoName(R.res.proto))
+\* the protocol a connection is served with is one the listener enables (C05)
+TDemux == Ev("DemuxResult") /\ Adv /\ ProtoName(R.res.proto) \in enabled /\ Demux(R.res.channel, ProtoName(R.res.proto))
 TTlsAcceptStart == Ev("TlsAcceptStart") /\ Adv /\ TlsAcceptStart
 
 TSessionOpen  == Ev("Gauge") /\ R.name = "client_sessions" /\ R.delta = 1 /\ Adv /\ SessionOpen(R.label)
 TSessionClose == Ev("Gauge") /\ R.name = "client_sessions" /\ R.delta = 0 - 1 /\ Adv /\ SessionClose(R.label)
-TServeOtherSilent == Ev("Gauge") /\ R.name = "outbound_tcp_sockets" /\ stage = "accepting" /\ ServeOther /\ UNCHANGED l
+TServeOtherSilent == Ev("Gauge") /\ R.name = "outbound_tcp_sockets" /\ stage = "accepting" /\ ServeOther /\ UNCHANGED << l, enabled >>
 TTcpOpen  == Ev("Gauge") /\ R.name = "outbound_tcp_sockets" /\ R.delta = 1 /\ Adv /\ TcpOpen
 TTcpClose == Ev("Gauge") /\ R.name = "outbound_tcp_sockets" /\ R.delta = 0 - 1 /\ Adv /\ TcpClose
 
 \* the client is gone and the endpoint has settled: whatever stage the connection was in, it is over,
 \* and nothing is left behind
 TDropSilent == Ev("ConnEnd") /\ stage \notin {"closed", "idle"} /\ ~(stage = "serving" /\ channel = "tunnel")
-               /\ (Drop \/ (stage = "accepting" /\ ServeOther)) /\ UNCHANGED l
+               /\ (Drop \/ (stage = "accepting" /\ ServeOther)) /\ UNCHANGED << l, enabled >>
 TConnEnd == Ev("ConnEnd") /\ Adv /\ stage \in {"closed", "idle"} /\ gTcp = 0 /\ (\A p \in Protos : gSessions[p] = 0)
             /\ UNCHANGED vars
 
 TNext == TConfig \/ TAccepted \/ TPeekDone \/ TRulesEval \/ TNoRulesSilent \/ TDemux \/ TTlsAcceptStart
          \/ TSessionOpen \/ TSessionClose \/ TServeOtherSilent \/ TTcpOpen \/ TTcpClose \/ TDropSilent \/ TConnEnd
 
-TInit == l = 1 /\ Init
+TInit == l = 1 /\ enabled = {} /\ Init
 TSpec == TInit /\ [][TNext]_tvars
 
 ASSUME TLCSet(1, 0)
